@@ -476,7 +476,7 @@ class MixedDsaComputation(VariableComputation):
         for c in self.soft_constraints:
             asgt = self._neighbors_values.copy()
             asgt[self.name] = self.current_value
-            const = c(filter_assignment_dict(asgt, c.dimensions))
+            const = c(**filter_assignment_dict(asgt, c.dimensions))
             if const != self.__optimum_dict__[c.name]:
                 return True
         return False
